@@ -112,6 +112,10 @@ class QueryPlanner:
             version = name_parts[-1]
             name_parts = name_parts[:-1]
 
+        if len(name_parts) > 2 and name_parts[0].lower() in self.databases:
+            # 'database.schema.table': the first part decides where the table lives, it is not a model
+            return None
+
         name = name_parts[-1]
 
         namespace = None
